@@ -31,7 +31,7 @@ def run(ctx):
         rule=("one case = one engine run (real provider of one format with a `headers` option list, preload on/off + real http gun, "
               "1-3 pools in the run each with its own target on another port of the same host (127.0.0.1 or localhost), targets up or down "
               "while the configuration is decoded, 1% of the cases with a 1.3-1.6 s pause between the requests (const schedule, run concurrently), "
-              "1-4 instances per pool, plain or TLS target answering with a generated status and body size 0 B..1.2 MB, keep-alive on/off); `tr` cases: every field of TransportConfig / DialerConfig (reflection) read back from the built http.Transport / net.Dialer; files are delivered 1-3 times (passes), format jsonarr = jsonline entries as one JSON array, target answers after 0 or 15 ms; "
+              "1-4 instances per pool, gun shared-client block absent / disabled with client-number -1..8 / enabled, target answering at once or only when all instances of the pool are in flight (rendezvous), plain or TLS target answering with a generated status and body size 0 B..1.2 MB, keep-alive on/off); `tr` cases: every field of TransportConfig / DialerConfig (reflection) read back from the built http.Transport / net.Dialer; files are delivered 1-3 times (passes), format jsonarr = jsonline entries as one JSON array, target answers after 0 or 15 ms; "
               "non-trivial: every tr case; wire cases where the configuration defines headers and either some key "
               "(canonical form) is defined both by the configuration and by an entry/in-file header, or the file has more "
               "than one item; distinct = distinct case lines. Header comparison: map sorted by canonical key, value lists in "
@@ -48,7 +48,8 @@ def run(ctx):
             "httptest plain/TLS target + decoy server recording method, RequestURI, Host, headers, body, connections)",
             "modelled, not verified: net/url.Parse, http.NewRequest, http.ReadRequest (entry tokenisation; model takes method/uri/host/"
             "header lines/body as given), textproto.CanonicalMIMEHeaderKey (concrete Gallina copy canon_mime, compared on every case), "
-            "net/http client serialisation, TLS, connection pooling (keep-alive reuse is checked by the harness only)",
+            "net/http client serialisation, TLS; connection pooling of net/http's Transport is modelled by Model/HttpConns.v (idle parking per client) and compared on every case "
+            "through the extracted conn_ok; client assignment (prepareClientPool/Bind/clientpool.Next) modelled by hand and compared through BaseGun.Client of every engine-bound gun",
         ],
         assumptions=["net/http Transport writes Request.Method, URL.RequestURI(), Host, Header and Body as given",
                      "Go map iteration order does not matter where keys are distinct"],
